@@ -230,7 +230,8 @@ PROPS = {
         ],
         "rule": "an evaluation is one of: (a) one commit on the sender's zone (2-4 versions per case, edited through ZoneUpdater record updates, ZoneUpdater full "
                 "replacement or the WritableZone RRset interface, serials including wrap-around) whose reported InMemoryZoneDiff, applied to the old model "
-                "content, must give the new content; (b) one end-to-end transfer: the real XfrMiddlewareSvc (TCP, compatibility mode, small messages through "
+                "content, must give the new content; (b) one end-to-end transfer: the real XfrMiddlewareSvc (every third TCP transfer TSIG-signed end to end, "
+                "TsigMiddlewareSvc around it and ClientSequence on the receiving side; TCP, compatibility mode, small messages through "
                 "reserved bytes, UDP IXFR) answers an AXFR/IXFR query, its stream is checked by the reference framing machine (RFC 5936 2.2 / RFC 1995 4) and "
                 "fed through Message::is_answer + XfrResponseInterpreter + ZoneUpdater into a receiving zone (empty, old version, unrelated content); (c) one "
                 "re-packaging of the canonical AXFR / IXFR / AXFR-in-reply-to-IXFR record sequence (all-in-one, one RR per message, random splits, question "
